@@ -531,6 +531,12 @@ namespace rvutils::pbo
 
             // read in the whole data available into helper struct
             file.read(reinterpret_cast<char*>(&data_mapped), sizeof(header::bin));
+            if ((size_t)file.gcount() != sizeof(header::bin))
+            { // truncated header record
+                file.clear();
+                file.seekg(start_pos);
+                return {};
+            }
             file.clear();
 
 
